@@ -210,9 +210,10 @@ Example C11_nonvacuous_real :
 Proof. exact (conj ex_contract ex_runs). Qed.
 Print Assumptions C11_nonvacuous_real.
 
-(* a three-call history (sigma default, then m.sigma = 2) on the rational instance: the OPinv matrices are
+(* a three-call history (sigma default, then m.sigma = 2) on the dyadic evaluation instance: the OPinv matrices are
    A1, A2 and A1 - 2 I *)
 Example C11_nonvacuous_history :
-  ex_opinvs = [Some [[2; 1]; [1; 3]]; Some [[5; 1]; [1; 4]]; None; Some [[0; 1]; [1; 1]]]%Q.
+  ex_opinvs = [Some [[dz 2; dz 1]; [dz 1; dz 3]]; Some [[dz 5; dz 1]; [dz 1; dz 4]]; None;
+               Some [[dz 0; dz 1]; [dz 1; dz 1]]].
 Proof. exact ex_opinvs_value. Qed.
 Print Assumptions C11_nonvacuous_history.
